@@ -400,6 +400,9 @@ fn aot(args: &Cli) -> anyhow::Result<()> {
         }
     }
 
+    // BufWriter swallows write errors when it is merely dropped
+    writer.flush().context(path.to_owned())?;
+
     Ok(())
 }
 
